@@ -1039,6 +1039,28 @@ Definition repo_item_tlines (i : item) : list pline :=
   | IComment _ => []
   end.
 Definition repo_print_with (ds : list item) : list Z := flat_map (fun l => untag l ++ [10]) (flat_map repo_item_tlines ds).
+(* side conditions under which the repo's printing of attributes is the canonical one: the word Attribute.__str__ treats as a
+   qualifier is the grammar's negation operator, and `comparer` is exactly the attribute with transforms *)
+Definition is_transform_kind (k : akind) : bool := match k with AkTransform => true | _ => false end.
+Definition repo_terms_ok : bool :=
+  list_eqb (negation T) code_not
+  && forallb (fun t => forallb (fun n => Bool.eqb (list_eqb n code_comparer) (is_transform_kind (snd (fst t)))) (snd t))
+       (attr_tables None ++ attr_tables (Some CField)).
+(* no attribute argument is the word `not` (known finding: Attribute.__str__ would print it as a qualifier); the negation of
+   @alignment is exempt *)
+Definition not_free_value (v : avalue) : bool := match v with AvStr s => negb (list_eqb (of_string s) code_not) | _ => true end.
+Definition attr_not_free (ctx : actx) (a : attribute) : bool :=
+  match attr_kind ctx (of_string (at_name a)) with Some AkAlignment => true | _ => forallb not_free_value (at_values a) end.
+Definition attrs_not_free (ctx : actx) (attrs : option (list attribute)) : bool :=
+  match attrs with None => true | Some l => forallb (attr_not_free ctx) l end.
+Definition decl_not_free (d : decl) : bool :=
+  match d with
+  | DAlias _ _ _ => true
+  | DEnum _ _ _ attrs _ => attrs_not_free CEnum attrs
+  | DStruct s => attrs_not_free CStruct (s_attrs s) && forallb (fun f => attrs_not_free CField (field_attrs f)) (s_fields s)
+  end.
+Definition doc_not_free (ds : list item) : bool := forallb (fun i => match i with IDecl d => decl_not_free d | _ => true end) ds.
+
 Definition strip_free_comments (ds : list item) : list item :=
   filter (fun i => match i with IComment _ => false | _ => true end) ds.
 
@@ -1135,4 +1157,5 @@ Definition parse (text : list Z) : result (list item) := parse_with T_now text.
 Definition render (st : style) (ds : list item) : list Z := render_with T_now st ds.
 Definition wf_doc (ds : list item) : bool := wf_doc_with T_now ds.
 Definition repo_print (ds : list item) : list Z := repo_print_with T_now ds.
+Definition no_not_arguments (ds : list item) : bool := doc_not_free T_now ds.
 Definition default_style : style := {| st_crlf := false; st_indent := [9]; st_hex := fun _ => false; st_blank_top := 1; st_blank_member := 0 |}.
